@@ -10,11 +10,16 @@
 int v_ph, v_groups, v_hex, v_dc;    /* ghost automaton */
 size_t g_grp;                       /* index at which the current / last hex group started */
 int rec_ip4_calls, rec_ip4_rc; const char *rec_ip4_start, *rec_ip4_end;
+/* reject direction */
+int g_colons;                       /* ':' consumed by the ghost */
+size_t g_run; const char *g_runp;   /* result and argument of the last strspn call */
+int g_nb, g_nb2;                    /* universally quantified: bound in the postcondition to the next two unread bytes (read once each) */
 
 /* A5: strspn(p, hexdigits): pointwise facts for the first five positions (only k <= 4 is ever used) */
 size_t strspn(const char *p, const char *set)
 {
     size_t k = nondet_size();
+    g_runp = p;
     __CPROVER_assert(set[0] == '0' && set[9] == '9' && set[10] == 'a' && set[15] == 'f' && set[16] == 'A' && set[21] == 'F' && set[22] == 0, "strspn is modelled for the set of hex digits only");
     __CPROVER_assume(k <= 0x7fffffff);
     /* each byte is read once into a local: every textual dereference is a separate index for the array theory */
@@ -24,6 +29,7 @@ size_t strspn(const char *p, const char *set)
     if (k > 3) { int b3 = BYTE_AT(p + 3); __CPROVER_assume(V_IS_HEX(b3)); }
     if (k > 4) { int b4 = BYTE_AT(p + 4); __CPROVER_assume(V_IS_HEX(b4)); }
     if (k <= 4) { int bk = BYTE_AT(p + k); __CPROVER_assume(!V_IS_HEX(bk)); }
+    g_run = k;
     return k;
 }
 
@@ -43,8 +49,8 @@ __CPROVER_requires(RANGE_REQ(start, end, (size_t)0x7ffffff0) && start[g_len] == 
 #else
 __CPROVER_requires(g_len <= 45 && __CPROVER_is_fresh(start, 46) && __CPROVER_pointer_in_range_dfcc(start, end, start + g_len) && end == start + g_len && start[g_len] == ']')
 #endif
-__CPROVER_requires(v_ph == V_START && v_groups == 0 && v_hex == 0 && v_dc == 0 && g_pos == 0 && g_grp == 0 && rec_ip4_calls == 0)
-__CPROVER_assigns(v_ph, v_groups, v_hex, v_dc, g_pos, g_grp, rec_ip4_calls, rec_ip4_rc, rec_ip4_start, rec_ip4_end)
+__CPROVER_requires(v_ph == V_START && v_groups == 0 && v_hex == 0 && v_dc == 0 && g_pos == 0 && g_grp == 0 && rec_ip4_calls == 0 && g_colons == 0 && g_run == 0)
+__CPROVER_assigns(v_ph, v_groups, v_hex, v_dc, g_pos, g_grp, rec_ip4_calls, rec_ip4_rc, rec_ip4_start, rec_ip4_end, g_colons, g_run, g_runp)
 __CPROVER_ensures(RET == 0 || RET == 1)
 /* YES without a dotted quad => the automaton accepts exactly start[0..g_len) */
 __CPROVER_ensures((RET != 0 && rec_ip4_calls == 0) ==> (g_pos == g_len ? V_ACC(v_ph, v_groups, v_dc) : (g_pos < g_len && start[g_pos] == 0)))
@@ -55,10 +61,20 @@ __CPROVER_ensures((RET != 0 && rec_ip4_calls != 0) ==> (rec_ip4_calls == 1 && re
 /* conversely: what the RFC 5321 grammar describes and this scan read to the end is accepted */
 __CPROVER_ensures((rec_ip4_calls == 0 && g_pos == g_len && V_ACC_5321(v_ph, v_groups, v_dc)) ==> RET != 0)
 __CPROVER_ensures((rec_ip4_calls == 1 && rec_ip4_rc != 0 && V_ACC_V4TAIL_5321(v_ph, v_groups, v_dc)) ==> RET != 0)
+/* an early NO is justified: a dotted-quad tail was handed to is_ipv4 and refused, or the next unread byte(s) are fatal for
+   the automaton: NUL; a dead step; a dead second step (":x" at the start, a second "::"); a '.' where no dotted quad may
+   start; an 8th ':' (lemma_ipv6: at most 7); a run of five or more hex digits (lemma_ipv6: fatal from every state) */
+__CPROVER_ensures(rec_ip4_calls != 0 ==> (rec_ip4_calls == 1 && RET == rec_ip4_rc))
+__CPROVER_ensures((RET == 0 && rec_ip4_calls == 0 && g_pos < g_len && g_nb == BYTE_AT(start + g_pos) && g_nb2 == (g_pos + 1 < g_len ? BYTE_AT(start + g_pos + 1) : -1)) ==>
+        (g_nb == 0 || (g_nb != '.' && V_NEXT_PH(v_ph, v_groups, v_hex, v_dc, g_nb) == V_DEAD) ||   /* a '.' is not a dead step: it hands over to the IPv4 automaton */
+         (g_nb == '.' && !V_ACC_V4TAIL_5321(v_ph, v_groups, v_dc)) ||
+         (g_nb == ':' && g_colons >= 7) ||
+         (g_run > 4 && g_runp == start + g_pos) ||
+         (g_nb2 >= 0 && g_nb != '.' && g_nb2 != '.' && V_NEXT_PH(V_NEXT_PH(v_ph, v_groups, v_hex, v_dc, g_nb), V_NEXT_GROUPS(v_ph, v_groups, g_nb), V_NEXT_HEX(v_ph, v_hex, g_nb), V_NEXT_DC(v_ph, v_dc, g_nb), g_nb2) == V_DEAD)))
 ;
 
 #define V_STEP1(c) { int c_ = (c), ph_ = v_ph, gr_ = v_groups, hx_ = v_hex, dc_ = v_dc; \
-    v_ph = V_NEXT_PH(ph_, gr_, hx_, dc_, c_); v_groups = V_NEXT_GROUPS(ph_, gr_, c_); v_hex = V_NEXT_HEX(ph_, hx_, c_); v_dc = V_NEXT_DC(ph_, dc_, c_); g_pos++; }
+    if (c_ == ':') g_colons++; v_ph = V_NEXT_PH(ph_, gr_, hx_, dc_, c_); v_groups = V_NEXT_GROUPS(ph_, gr_, c_); v_hex = V_NEXT_HEX(ph_, hx_, c_); v_dc = V_NEXT_DC(ph_, dc_, c_); g_pos++; }
 /* the ':' branch has consumed exactly one ':' (cp was advanced by one) */
 #define EAV_VERIF_AT_is_ipv6_colon \
     __CPROVER_assert(g_pos + 1 == (size_t)((const char *)cp - start), "GHOST: the ':' branch consumed exactly one byte"); V_STEP1(':')
